@@ -219,6 +219,28 @@ type C16FnShadowPtr struct {
 
 func (*C16FnShadowPtr) Label() string { return "pmethod" }
 
+// ---- exported members spelled like the language's word operators, literals and builtins in ANOTHER letter case: they are
+//
+//	ordinary names (the language's words are lower-case only) ----
+type C16WordsIn struct {
+	OR  int
+	IN  string
+	Not bool
+}
+type C16Words struct {
+	OR, AND, NOT, IN                        int
+	MATCHES, CONTAINS, STARTSWITH, ENDSWITH string
+	NIL, TRUE, FALSE                        bool
+	Len, All, None, Any, One, Filter, Map   int
+	Or, And, Not, In, Nil, True, False      int
+	Of                                      C16WordsIn
+	C16WordsIn2
+}
+type C16WordsIn2 struct{ Matches, Contains string }
+
+func (C16Words) COUNT() int      { return 1 }
+func (C16Words) Count(i int) int { return i }
+
 type c16envSpec struct {
 	name string
 	t    reflect.Type // struct type (used as T and as *T), or map type
@@ -235,7 +257,7 @@ var c16StructPool = []reflect.Type{
 	reflect.TypeOf(C16M1{}), reflect.TypeOf(C16M2{}), reflect.TypeOf(C16AmbM{}), reflect.TypeOf(C16PromV{}),
 	reflect.TypeOf(C16PromP{}), reflect.TypeOf(C16PromDeep{}), reflect.TypeOf(C16MethField{}),
 	reflect.TypeOf(C16Funcs{}), reflect.TypeOf(C16Holder{}),
-	reflect.TypeOf(C16Unicode{}), reflect.TypeOf(C16FnShadow{}), reflect.TypeOf(C16FnShadowPtr{}),
+	reflect.TypeOf(C16Unicode{}), reflect.TypeOf(C16FnShadow{}), reflect.TypeOf(C16FnShadowPtr{}), reflect.TypeOf(C16Words{}),
 }
 
 // method-less types reflect.StructOf may embed (by value and by pointer)
